@@ -303,3 +303,191 @@ func ruleTableNeedsDash(w *World, r *Report) {
 	}
 	_ = sort.Strings
 }
+
+// ---- C11-L ---------------------------------------------------------------------------------------------------
+
+// literalPrefixOf: the case-sensitive literal a pattern must start with (after ^), "" if none / folded.
+func literalPrefixOf(re *syntax.Regexp) string {
+	switch re.Op {
+	case syntax.OpLiteral:
+		if re.Flags&syntax.FoldCase != 0 {
+			return ""
+		}
+		return string(re.Rune)
+	case syntax.OpConcat:
+		out := ""
+		for i, s := range re.Sub {
+			if s.Op == syntax.OpBeginText || s.Op == syntax.OpBeginLine {
+				if i == 0 {
+					continue
+				}
+				return out
+			}
+			if s.Op == syntax.OpLiteral && s.Flags&syntax.FoldCase == 0 {
+				out += string(s.Rune)
+				continue
+			}
+			if s.Op == syntax.OpCapture && len(s.Sub) == 1 {
+				p := literalPrefixOf(s.Sub[0])
+				out += p
+			}
+			return out
+		}
+		return out
+	case syntax.OpCapture:
+		if len(re.Sub) == 1 {
+			return literalPrefixOf(re.Sub[0])
+		}
+	}
+	return ""
+}
+
+func ruleLinkifyNeedsItsTriggers(w *World, r *Report) {
+	r.Rule("C11-L", "Linkify without 'www.': (a) the default pattern stored into LinkifyConfig.WWWRegexp is a package-level regular expression compiled from one constant whose syntax tree starts with the case-sensitive literal \"www.\"; (b) in the linkify inline parser every match attempt with the WWWRegexp field is dominated by the true edge of bytes.HasPrefix(line, K) where K is the constant \"www.\" and line is the peeked line itself or a sub-slice of it (no case folding or other transformation in between). A case-insensitive prefix test ('host names are case-insensitive') turns 'WWW.example.com' into a link in a document that contains neither ':' nor '@' nor 'www.'.")
+	cfg := w.Named("extension", "LinkifyConfig")
+	if cfg == nil {
+		r.Unknown("extension.LinkifyConfig", "", "type not found")
+		return
+	}
+	isWWWField := func(v ssa.Value) bool {
+		fa, ok := loadOfField(v)
+		if !ok {
+			return false
+		}
+		t, f := fieldOfAddr(fa)
+		return f != nil && f.Name() == "WWWRegexp" && namedOf(t) != nil && namedOf(t).Obj() == cfg.Obj()
+	}
+	// (a) defaults stored into the field
+	nDef := 0
+	for _, fn := range w.Funcs {
+		if w.PkgOf(fn) != modPath+"/extension" {
+			continue
+		}
+		for _, b := range fn.Blocks {
+			for _, ins := range b.Instrs {
+				st, ok := ins.(*ssa.Store)
+				if !ok {
+					continue
+				}
+				fa, ok := st.Addr.(*ssa.FieldAddr)
+				if !ok {
+					continue
+				}
+				t, f := fieldOfAddr(fa)
+				if f == nil || f.Name() != "WWWRegexp" || namedOf(t) == nil || namedOf(t).Obj() != cfg.Obj() {
+					continue
+				}
+				u, ok := st.Val.(*ssa.UnOp)
+				if !ok {
+					continue // an option setter storing the user's value
+				}
+				g, ok := u.X.(*ssa.Global)
+				if !ok {
+					continue
+				}
+				nDef++
+				key := "default WWW pattern " + g.Name()
+				pat, ok := w.globalRegexpPattern(g)
+				if !ok {
+					r.Unknown(key, w.InstrPos(st), "not compiled from a single constant")
+					continue
+				}
+				re, err := syntax.Parse(pat, syntax.Perl)
+				if err != nil {
+					r.Unknown(key, w.InstrPos(st), "pattern does not parse")
+					continue
+				}
+				if p := literalPrefixOf(re); strings.HasPrefix(p, "www.") {
+					r.OK(key, w.InstrPos(st), "starts with the case-sensitive literal \"www.\"")
+				} else {
+					r.Bad(key, w.InstrPos(st), fmt.Sprintf("the pattern %q does not start with the case-sensitive literal \"www.\" (literal prefix: %q)", pat, p))
+				}
+			}
+		}
+	}
+	r.Expect("default WWW patterns", nDef, 1)
+	// (b) match attempts
+	n := 0
+	for _, fn := range w.Funcs {
+		if w.PkgOf(fn) != modPath+"/extension" {
+			continue
+		}
+		for _, b := range fn.Blocks {
+			for _, ins := range b.Instrs {
+				c, ok := ins.(*ssa.Call)
+				if !ok {
+					continue
+				}
+				cal := c.Common().StaticCallee()
+				if cal == nil || !strings.HasPrefix(cal.String(), "(*regexp.Regexp).") || len(c.Common().Args) < 2 || !isWWWField(c.Common().Args[0]) {
+					continue
+				}
+				n++
+				key := w.FnKey(fn) + ": WWW match attempt"
+				ok2 := false
+				for _, cf := range dominatingConds(b) {
+					for _, a := range condAtoms(cf.If.Cond, cf.Truth) {
+						hp, isCall := a.V.(*ssa.Call)
+						if !isCall || !a.Truth {
+							continue
+						}
+						hc := hp.Common().StaticCallee()
+						if hc == nil || hc.String() != "bytes.HasPrefix" {
+							continue
+						}
+						k, isK := w.constBytes(hp.Common().Args[1])
+						if !isK || k != "www." {
+							continue
+						}
+						// the subject: slices of the peeked line only
+						subj := hp.Common().Args[0]
+						raw := true
+						for depth := 0; depth < 8; depth++ {
+							switch x := subj.(type) {
+							case *ssa.Slice:
+								subj = x.X
+								continue
+							case *ssa.Phi:
+								// line = line[1:] on one arm
+								allSlices := true
+								var next ssa.Value
+								for _, e := range x.Edges {
+									if sl, ok := e.(*ssa.Slice); ok {
+										next = sl.X
+									} else if next == nil {
+										next = e
+									} else if e != next {
+										allSlices = allSlices && (e == next)
+									}
+								}
+								if next == nil {
+									raw = false
+								}
+								subj = next
+								continue
+							case *ssa.Extract:
+								if pk, ok := x.Tuple.(*ssa.Call); ok && callName(pk) == "PeekLine" && x.Index == 0 {
+									depth = 99
+									continue
+								}
+								raw = false
+							default:
+								raw = false
+							}
+							break
+						}
+						if raw && sameValue(c.Common().Args[1], hp.Common().Args[0]) {
+							ok2 = true
+						}
+					}
+				}
+				if ok2 {
+					r.OK(key, w.InstrPos(c), "dominated by bytes.HasPrefix(line, \"www.\") on the raw line")
+				} else {
+					r.Bad(key, w.InstrPos(c), "the WWW pattern is tried without a dominating case-sensitive test for the prefix \"www.\" on the raw line")
+				}
+			}
+		}
+	}
+	r.Expect("WWW match attempts", n, 1)
+}
